@@ -373,6 +373,7 @@ def c03(ck):
 
 # ----------------------------------------------------------------------------------------------- C04
 KEY_SIZES = [0, 1, 16, 32, 33, 64, 1000]
+KEY_SIZES_ODD = [2, 7, 15, 17, 31, 63, 65, 255, 256, 257, 999, 1001, 4096, 65535, 65536, 2 ** 31, 2 ** 32 - 1, 2 ** 32, 2 ** 32 + 32, 2 ** 48 + 5, 2 ** 64 - 1]
 
 
 def c04(ck):
@@ -384,7 +385,7 @@ def c04(ck):
         f, m = feature_choices(rng)
         bday = rng.choice(MONTHS_BOUNDARY + [600, 777]) if n % 2 else rng.below(1024)
         s.make_seed(0, rand_secret(rng) if n > 3 else gen.boundary_secrets(rng, 0)[150 + n % 8], bday, f, rng, enable=7)
-        for size in KEY_SIZES:
+        for size in KEY_SIZES + [rng.choice(KEY_SIZES_ODD), rng.choice(KEY_SIZES_ODD), 1 + rng.below(200)]:
             s.add("env", "mask=" + hx(rng.bytes(64)))
             s.add("keygen", 0, rng.choice(COINS_BOUNDARY) if size % 2 else rng.below(2048), size)
         # the same seed by other paths
@@ -533,6 +534,10 @@ def c06(ck):
                 s.add("free", 1)
             ck.add(Exec("load-%d-%d" % (bi, n), s.lines))
             n += 1
+    # spec -> code: TLC-generated images for every feature value (valid and with the check value off by one)
+    vecs = spec_vectors(ck)
+    ck.extra["tlc_generated_vectors"] = len(vecs)
+    spec_vector_execs(ck, rng, vecs, "specvec")
     # round trip of structured seeds
     for grp in chunked([k for k in range(165) if k != 161], 30):
         s = Script()
@@ -577,6 +582,21 @@ def c07(ck):
         L = codec.lang(lid)
         for part, grp in enumerate(chunked(list(range(2048)), 512)):
             ck.add(Exec("find-%s-%d" % (lid, part), ["find %s %s" % (lid, hx(L["wb"][i])) for i in grp]))
+    # the registry is frozen whatever the process environment says
+    for loc in ("ja_JP.UTF-8", "ko_KR.UTF-8", "es_ES.UTF-8", "fr_FR.UTF-8", "it_IT.UTF-8", "cs_CZ.UTF-8", "pt_BR.UTF-8", "zh_CN.UTF-8", "zh_TW.UTF-8", "en_US.UTF-8", "de_DE"):
+        s = Script()
+        s.add("env", "langenv=" + loc)
+        s.add("numlangs")
+        s.make_seed(0, rand_secret(rng), rng.below(1024), 0, rng, enable=0)
+        for lid in LANG_IDS:
+            r = s.sreg()
+            s.add("encode", 0, lid, 0, r)
+            s.add("decode", r, 0, 1)
+            s.add("decodex", r, 0, lid, 2)
+            s.add("free", 1)
+            s.add("free", 2)
+        s.add("numlangs")
+        ck.add(Exec("locale-" + loc.split(".")[0], s.lines))
     # the debug self-test of the library, run with the real normaliser (sortedness, NFKD, separators)
     ck.add(Exec("selftest-dbg", ["inject AAAAAAAA", "numlangs"], variant="dbg"))
     # through the public API: every index at every phrase position
@@ -662,6 +682,10 @@ def c08(ck):
                     t.add(base + b"\xcc\x81")                # an accent the word does not have there
                 t.add(w + b"a")
                 t.add(w + w[-1:])
+                if (i + ck.seed) % 4 == 0 or accented:          # the rule knows no letter case
+                    t.add(w[:1].upper() + w[1:])
+                    t.add(w.upper())
+                    t.add(w[:1].upper() + "".join(c0[0] for c0 in cs[1:4]).encode())
                 if len(cs) > 4:
                     t.add("".join(c[0] + c[1] for c in cs[:3]).encode() + cs[4][0].encode())   # skips a letter
                 toks[lid] += sorted(t)
@@ -712,12 +736,50 @@ def c08(ck):
     ck.assumptions += ["tokens are given to the internal search already decomposed; whole phrases go through utf8proc NFKD in composed and decomposed spelling"]
 
 
+def spec_vectors(ck):
+    """Vectors generated by TLC from the specification (Theorems family "vectors"): images and word indices of
+    seeds with every value of the five feature bits, valid and with the check value off by one."""
+    import json
+    import re
+    res = ck.model("Theorems.tla", "Theorems_vectors.cfg")
+    out = []
+    for m in re.finditer(r'<<\s*"VEC",\s*"((?:[^"\\]|\\.)*)"\s*>>', res["out"], re.S):
+        try:
+            out.append(json.loads(json.loads('"' + re.sub(r"\s*\n\s*", "", m.group(1)) + '"')))
+        except ValueError:
+            pass
+    return out
+
+
+def spec_vector_execs(ck, rng, vecs, name):
+    """The library's verdict on the specification's vectors, at every entry point, under every mask."""
+    for m in range(8):
+        for part, grp in enumerate(chunked(vecs, 24)):
+            s = Script()
+            s.add("enable", m)
+            for v in grp:
+                s.add("load", s.buf(bytes(v["img"])), 1)
+                s.add("store", 1, s.breg())
+                s.add("free", 1)
+                for lid in ("en", rng.choice(LANG_IDS)):
+                    r = s.string(codec.phrase(lid, v["words"]))
+                    s.add("decodex", r, 0, lid, 1)
+                    s.add("free", 1)
+                    s.add("decode", r, 0, 1)
+                    s.add("free", 1)
+            ck.add(Exec("%s-m%d-%d" % (name, m, part), s.lines))
+
+
 # ----------------------------------------------------------------------------------------------- C10
 def c10(ck):
     rng = Rng(ck.seed)
     quick = ck.tier == "quick"
     ck.model("Theorems.tla", "Theorems_features.cfg")
     ck.model("PolyseedMC.tla", "PolyseedMC_quick.cfg" if quick else "PolyseedMC_thorough.cfg", heap="16g", timeout=3400)
+    # spec -> code: the vectors TLC derives from the specification (the library cannot manufacture the reserved ones)
+    vecs = spec_vectors(ck)
+    ck.extra["tlc_generated_vectors"] = len(vecs)
+    spec_vector_execs(ck, rng, vecs, "specvec")
     for rep in range(1 if quick else 12):
         sec = rand_secret(rng)
         for m in range(8):
@@ -761,6 +823,21 @@ def c10(ck):
                 s.add("isenc", 1)
                 s.add("free", 1)
             ck.add(Exec("create-r%d-m%d" % (rep, m), s.lines))
+    # seeds that stay alive while the enabled mask changes: queries keep returning exactly the stored bits
+    for n in range(6 if quick else 60):
+        s = Script()
+        s.add("enable", 7)
+        for h in range(4):
+            s.add("env", "rand=" + hx(rand_secret(rng)))
+            s.add("create", h, rng.choice([5, 7, 1, 2, 4, 6, 3]))
+        for m in [rng.below(8) for _ in range(5)] + [0, 7]:
+            s.add("enable", m)
+            for h in range(4):
+                s.add("feat", h, rng.choice([7, 1, 2, 4, 3, 5, 6, 0xFFFFFFFF]))
+                s.add("isenc", h)
+            s.add("encode", rng.below(4), rng.choice(LANG_IDS), 0, 1)
+            s.add("store", rng.below(4), 1)
+        ck.add(Exec("live-across-enable-%d" % n, s.lines))
     ck.validate()
     ck.exhaustive = True
 
@@ -784,7 +861,9 @@ def c11(ck):
         if libc:
             s.add("inject", "AAAAANAA")          # clock entry NULL: libc time() must be used
         for t in grp:
-            s.add("env", "rand=" + hx(rand_secret(rng)), ("libctime=%d" if libc else "time=%d") % t)
+            # (a library that looks at the sub-second part of some libc clock gets the scheduled one)
+            s.add("env", "rand=" + hx(rand_secret(rng)), ("libctime=%d" if libc else "time=%d") % t,
+                  "libcnsec=%d" % rng.choice([0, 499999999, 500000000, 999999999]))
             s.add("create", 1, 0)
             s.add("bday", 1)
             s.add("free", 1)
@@ -914,6 +993,29 @@ def c17(ck):
             s.add("decodex", s.string(codec.phrase(lid, w, composed=False, sep=b" ")), 0, lid, 3)
             ck.add(Exec("witness-%s-%d" % (lid, k), s.lines, variant="san"))
             ck.add(Exec("witness-plain-%s-%d" % (lid, k), s.lines, variant="plain"))
+    for lid in LANG_IDS:
+        L = codec.lang(lid)
+        plain_words = [i for i in range(2048) if all(b < 128 for b in L["wb"][i])] or list(range(2048))
+        shortest = sorted(range(2048), key=lambda i: (len(L["wb"][i]), i))
+        for k in range(8 if quick else 80):
+            if k % 4 == 0:
+                w = [0] + [rng.choice(plain_words) for _ in range(15)]          # no non-ASCII letter anywhere (where the list allows)
+            elif k % 4 == 1:
+                w = [0] + [shortest[rng.below(1 + k)] for _ in range(15)]       # shortest words
+            else:
+                w = [0] + [rng.below(2048) for _ in range(15)]
+            w[2] &= ~1
+            for _ in range(200):
+                w = codec.fix_check(w)
+                if k % 4 != 0 or w[0] in plain_words:
+                    break
+                w[1 + rng.below(15)] = rng.choice(plain_words)
+                w[2] &= ~1
+            s = Script()
+            seed_script(s, 0, w, rng)
+            s.add("encode", 0, lid, rng.choice(COINS_BOUNDARY) if k % 2 else 0, 1)
+            s.add("decodex", 1, 0, lid, 1)
+            ck.add(Exec("ordinary-%s-%d" % (lid, k), s.lines, variant="san" if k % 2 else "plain"))
     ck.extra["upper_bounds_per_language"] = maxima
     ck.validate()
     ck.exhaustive = True
@@ -970,6 +1072,30 @@ def c19(ck):
                     toks += variants_of(cs, k)
             toks.append(w + b"\xcc\x81")
         execs.append(("tokens-%s" % lid, ["find %s %s" % (lid, hx(t)) for t in toks]))
+    # the odd and the hostile: how input is REJECTED must not depend on the signedness either
+    odd = structured_strings(rng, 150 if quick else 2500)
+    bom = "\ufeff".encode()
+    for lid in LANG_IDS:
+        ph = codec.phrase(lid, rand_idx(rng))
+        odd += [bom + ph, ph + bom, b"\xef\xbb" + ph, b"\xbf" + ph, b"\x80" + ph, ph.replace(b" ", b" \xc2\xa0", 1)]
+    for n, grp in enumerate(chunked(odd, 20)):
+        s = Script()
+        s.add("enable", 7)
+        s.add("env", "rand=" + hx(rand_secret(rng)))
+        s.add("create", 0, 0)
+        for st in grp:
+            if b"\x00" in st or len(st) > 60000:
+                continue
+            r = s.string(st)
+            s.add("decode", r, 0, 1)
+            s.add("free", 1)
+            for lid in (rng.choice(LANG_IDS), rng.choice(["es", "fr", "jp", "zh_s"])):
+                s.add("decodex", r, 0, lid, 1)
+                s.add("free", 1)
+            if len(st) < 300:
+                s.add("env", "mask=" + hx(rng.bytes(32)))
+                s.add("crypt", 0, r)              # the same bytes as a password
+        execs.append(("odd-%d-0" % n if n == 0 else "odd-%d" % n, s.lines))
     execs.append(("selftest", ["inject AAAAAAAA", "numlangs"]))
     for variant in ("schar", "uchar", "uchar_dbg", "dbg"):
         for name, lines in execs:
@@ -1575,6 +1701,17 @@ def hostile_strings(rng, n, S):
             out.append(base)
         else:
             out.append(b"")
+    # a character of every UTF-8 length and plane boundary in front of (and inside, and after) a valid phrase
+    scalars = [0x80, 0xA0, 0xBF, 0x7FF, 0x800, 0x3000, 0xD7FF, 0xE000, 0xFEFF, 0xFFFD, 0xFFFF, 0x10000, 0x1F600, 0x2F800, 0xE0001, 0x10FFFF]
+    for cp in scalars:
+        lid = rng.choice(LANG_IDS)
+        toks = codec.phrase(lid, rand_idx(rng), composed=False, sep=b" ").split(b" ")
+        ch = chr(cp).encode("utf-8")
+        out.append(b" ".join([ch + toks[0]] + toks[1:]))
+        out.append(b" ".join([ch] + toks[1:]))
+        p = 1 + rng.below(15)
+        out.append(b" ".join(toks[:p] + [toks[p][:1] + ch + toks[p][1:]] + toks[p + 1:]))
+        out.append(b" ".join(toks) + ch)
     return [x for x in out if b"\x00" not in x and len(x) < 66000]
 
 
